@@ -7,15 +7,18 @@
 (***************************************************************************)
 EXTENDS AyMerge, AyUniverse, SequencesExt
 
-XRefPaths(t) == {p \in PathsOf(t) : At(t, p).k = "xref"}
+\* references: !xref nodes and !eval nodes whose code is one bare name (they carry ref = <<that top-level key>>):
+\* both evaluate to the very object their target evaluates to
+IsRefNode(n) == n.k = "xref" \/ (n.k = "eval" /\ n.ref # <<>>)
+XRefPaths(t) == {p \in PathsOf(t) : IsRefNode(At(t, p))}
 DynKinds == {"call", "eval", "fstr", "import"}
-DynPaths(t)  == {p \in PathsOf(t) : At(t, p).k \in DynKinds}
+DynPaths(t)  == {p \in PathsOf(t) : At(t, p).k \in DynKinds /\ ~IsRefNode(At(t, p))}
 
 \* static resolution of the reference at p: <<"ok", target>> | <<"missing">> | <<"cycle">>
 RECURSIVE ResolveFrom(_, _, _)
 ResolveFrom(t, cur, seen) ==
     IF cur = <<>> \/ ~HasPath(t, cur) THEN <<"missing", cur>>
-    ELSE IF At(t, cur).k # "xref" THEN <<"ok", cur>>
+    ELSE IF ~IsRefNode(At(t, cur)) THEN <<"ok", cur>>
     ELSE IF cur \in seen THEN <<"cycle", cur>>
     ELSE ResolveFrom(t, At(t, cur).ref, seen \cup {cur})
 Resolve(t, p) == ResolveFrom(t, At(t, p).ref, {p})
@@ -23,7 +26,7 @@ Resolve(t, p) == ResolveFrom(t, At(t, p).ref, {p})
 \* what the value of a node depends on: a container on its children, a reference on its final target
 DepOf(t, p) ==
     LET n == At(t, p)
-    IN IF n.k = "xref" THEN (IF Resolve(t, p)[1] = "ok" THEN {Resolve(t, p)[2]} ELSE {})
+    IN IF IsRefNode(n) THEN (IF Resolve(t, p)[1] = "ok" THEN {Resolve(t, p)[2]} ELSE {})
        ELSE IF IsComposed(n) THEN {Append(p, n.ch[i][1]) : i \in 1..Len(n.ch)}
        ELSE {}
 RECURSIVE ReachFrom(_, _, _)
@@ -50,7 +53,8 @@ C09_Alias(t, status, ids) ==
                                 /\ HasId(ids, p) /\ HasId(ids, Resolve(t, p)[2])
                                 /\ IdAt(ids, p) = IdAt(ids, Resolve(t, p)[2])      \* the very same object
 C09_Dangling(t, status) ==
-    (\A p \in PathsOf(t) : At(t, p).k \in {"dict", "list", "scalar", "xref", "call", "bind"}) =>
+    (\A p \in PathsOf(t) : /\ (At(t, p).k \in {"dict", "list", "scalar", "xref", "call", "bind"} \/ IsRefNode(At(t, p)))
+                            /\ (IsFn(At(t, p)) => At(t, p).ref = <<>>)) =>
         ((status = "EvalError") <=> BadRefs(t))
 C09_Holds(t, status, ids) == status \in {"done", "EvalError"} => (C09_Alias(t, status, ids) /\ C09_Dangling(t, status))
 
@@ -68,7 +72,7 @@ C10_OnlyExisting(t, calls) == \A i \in 1..Len(calls) : calls[i].p \in DynPaths(t
 RECURSIVE Denote(_, _)
 Denote(t, p) ==
     LET n == At(t, p)
-    IN IF n.k = "xref" THEN Denote(t, Resolve(t, p)[2])
+    IN IF IsRefNode(n) THEN Denote(t, Resolve(t, p)[2])
        ELSE IF n.k = "call" /\ n.fn = "vmod.recnone" THEN Plain("scalar", Atom("n", ""), <<>>)
        ELSE IF n.k = "call" /\ n.fn = "vmod.reclist" THEN Plain("list", NoVal, <<>>)
        ELSE IF n.k \in DynKinds THEN Plain("obj", NoVal, <<>>)
@@ -81,7 +85,7 @@ C10_OrderFree(t, status, data) == (status = "done" /\ ~BadRefs(t)) => data = Den
 \* ... and which object a dynamic node produced is shared by all its consumers
 C10_SameObject(t, status, ids) ==
     status = "done" => \A p \in PathsOf(t) : HasId(ids, p) /\
-        (At(t, p).k = "xref" => IdAt(ids, p) = IdAt(ids, Resolve(t, p)[2]))
+        (IsRefNode(At(t, p)) => IdAt(ids, p) = IdAt(ids, Resolve(t, p)[2]))
 
 \* ---- C11 -------------------------------------------------------------------
 \* mirror: the result has the shape of the merged tree (mapping -> attribute dict,
